@@ -161,7 +161,7 @@ def enum_all_at_once(fc: FileCtx):
 
 
 def enum_pairs(fc: FileCtx, kind_ids=None):
-    singles = [s[0] for s in enum_single(fc, kind_ids)]
+    singles = [s[0] for s in enum_single(fc, kind_ids) if s[0][3] not in HEAVY]  # the 70 kB comments take part as single insertions only
     for a, b in itertools.combinations(singles, 2):
         if a[1] == "trail" and b[1] == "trail" and a[0] == b[0]:
             continue
